@@ -24,6 +24,29 @@ pub struct Case {
   /// registry files (by global index) whose content is in the loader's cache
   pub cached_files: Vec<u16>,
   pub kind: u8,
+  /// some relative imports between the files of a package carry
+  /// `type: "text"` / `"bytes"` (the build enables both)
+  #[serde(default)]
+  pub asset_imports: bool,
+}
+
+/// Turns every other attribute-less relative import of the package files into
+/// a text / bytes asset import.
+fn with_asset_imports(part: &mut JsrPart) {
+  use crate::world::Item;
+  for p in part.registry.packages.iter_mut() {
+    for v in p.versions.iter_mut() {
+      for (path, f) in v.files.iter_mut() {
+        for (n, it) in f.items.iter_mut().enumerate() {
+          if let Item::Import { spec, attr, .. } | Item::SideEffect { spec, attr } | Item::Dynamic { spec, attr, .. } = it {
+            if attr.is_none() && spec.starts_with('.') && (n + spec.len() + path.len()) % 2 == 0 {
+              *attr = Some(if (n + path.len()) % 3 == 0 { "bytes" } else { "text" }.to_string());
+            }
+          }
+        }
+      }
+    }
+  }
 }
 
 pub fn spec() -> PropSpec<Case> {
@@ -37,6 +60,7 @@ pub fn spec() -> PropSpec<Case> {
         prop_oneof![3 => Just(0u8), 1 => Just(1u8), 1 => Just(2u8)],
       )
         .prop_map(|(program, jsr, cached_files, kind)| Case {
+          asset_imports: cached_files.len() % 3 == 1,
           program,
           jsr,
           cached_files,
@@ -261,6 +285,9 @@ fn build_registry(
   loader.cache = Some(cache);
   let opts = Opts {
     kind,
+    // files of a package import one another as text / bytes assets too
+    unstable_text: true,
+    unstable_bytes: true,
     ..Default::default()
   };
   let mut graph = ModuleGraph::new(opts.graph_kind());
@@ -304,8 +331,18 @@ pub fn check(case: &Case, _tier: Tier) -> Outcome {
     }
   }
   // (c)
-  let (with_info, deferred) = build_registry(&case.jsr, true, &case.cached_files, case.kind);
-  let (without, _) = build_registry(&case.jsr, false, &case.cached_files, case.kind);
+  let assets;
+  let jsr = if case.asset_imports {
+    let mut j = case.jsr.clone();
+    with_asset_imports(&mut j);
+    o.label("asset-imports-between-package-files");
+    assets = j;
+    &assets
+  } else {
+    &case.jsr
+  };
+  let (with_info, deferred) = build_registry(jsr, true, &case.cached_files, case.kind);
+  let (without, _) = build_registry(jsr, false, &case.cached_files, case.kind);
   let a = crate::obs::graph_json(&with_info);
   let b = crate::obs::graph_json(&without);
   if a != b {
